@@ -13,6 +13,7 @@ import Q1t.Base.Q8
 import Q1t.Model.Conj
 import Q1t.Spec.Unitaries
 import Q1t.Spec.Clifford
+import Driver.SimParse
 /-! Driver for C03: one request per line, one answer per line.
 
 Requests (words separated by blanks; a tableau is its `Display` lines joined by `,`, `_` = 0 qubits):
@@ -155,6 +156,15 @@ def termMatrix (g : GateTerm Empty) (n : Nat) (bits : List Nat) : List (List Z8)
 def applyTermSpec (M : List (List Z8)) (ψ : Vec) : Vec :=
   M.map fun row => (List.zipWith (· * ·) row ψ).foldl (· + ·) 0
 
+/-- ops of an `auto` request: tokens after the `|`, ops separated by `;` -/
+def parseCircuitOps (toks : List String) : Option (List (Q1t.Sim.COp Float)) :=
+  let groups : List (List String) := toks.foldl (fun acc w =>
+    if w == ";" then acc ++ [[]] else
+    match acc.getLast? with
+    | some g => acc.dropLast ++ [g ++ [w]]
+    | none => [[w]]) [[]]
+  (groups.filter (· ≠ [])).mapM Q1t.SimParse.parseOp
+
 def handle (line : String) : String :=
   match words line with
   | ["new", n] =>
@@ -171,6 +181,12 @@ def handle (line : String) : String :=
       | some l => s!"ok {l.length}"
       | none => "fail"
     | none => "bad-op"
+  | "auto" :: _det :: _nq :: _nc :: "|" :: toks =>
+    match parseCircuitOps toks with
+    | some ops => s!"isstab {Q1t.Conj.isStabilizerCircuit ops}"
+    | none => "bad-op"
+  | "hist" :: _ => "any"
+  | "stream" :: _ => "ok"   -- a generator stream of the harness ran to its end (a panic in the code under test ends it)
   | "conj" :: name :: ops =>
     match nats? ops with
     | some ops =>
@@ -443,6 +459,45 @@ def specCheck (mat : Option (List (List Z8))) (line : String) : String :=
                     else if t.n == n && stabilizesB t (Vec.basis n 0) then "ok" else "fail new-not-zero-state"
         | none => "fail unparsable-answer"
       | _, _ => "fail new-did-not-return"
+    | "auto" :: det :: _ =>
+      -- isstab B auto CLS vec CLS rega R regv R
+      match aw with
+      | ["isstab", _, "auto", ca, "vec", cv, "rega", ra, "regv", rv] =>
+        if ca != cv then s!"fail auto-choice-changes-result-class automatic representation gives {ca}, explicit vector run gives {cv}"
+        else if det == "det" && ca == "ok" && ra != rv then
+          s!"fail auto-choice-changes-register deterministic circuit: automatic run stores {ra}, vector run stores {rv}"
+        else "ok"
+      | _ => "fail auto-did-not-return"
+    | "hist" :: _ =>
+      -- words w.. | snap count:tab ..   : bit 1 (q1 measured before the reset of q0) must equal bit 2 (q1 read out
+      -- afterwards) in every shot, and the ranges must be the runs of equal (bit0, bit1) in shot order, each with
+      -- the tableau of |0, bit1, 0..>
+      match splitBars aw with
+      | [("words" :: ws), ("snap" :: rs)] =>
+        match nats? ws with
+        | none => "fail unparsable-answer"
+        | some ws =>
+          match ws.find? (fun w => w.testBit 1 != w.testBit 2) with
+          | some w => s!"fail hist-readout-differs-from-stored-bit a shot stored q1={if w.testBit 1 then 1 else 0} before the reset of q0 and reads {if w.testBit 2 then 1 else 0} afterwards"
+          | none =>
+            -- runs of (bit0, bit1)
+            let keys := ws.map fun w => w % 4
+            let runs : List (Nat × Nat) := keys.foldl (fun acc k =>
+              match acc.getLast? with
+              | some (k', c) => if k' == k then acc.dropLast ++ [(k, c + 1)] else acc ++ [(k, 1)]
+              | none => [(k, 1)]) []
+            let got : List (Nat × Bool) := rs.filterMap fun r =>
+              match r.splitOn ":" with
+              | [c, t] => c.toNat?.map fun c => (c, (t.splitOn ",").getD 1 "" |>.startsWith "-")
+              | _ => none
+            let exp : List (Nat × Bool) := runs.map fun kc => (kc.2, kc.1 / 2 == 1)
+            -- adjacent runs with the same q1 value may legitimately be one range or two
+            let expand (l : List (Nat × Bool)) : List Bool := l.flatMap fun cb => List.replicate cb.1 cb.2
+            if got.length != rs.length then "fail unparsable-answer"
+            else if expand got != expand exp then "fail hist-ranges-do-not-match-register the tableaus owned by the shots do not carry the q1 values stored for those shots"
+            else "ok"
+      | _ => "fail hist-did-not-return"
+    | "stream" :: _ => if aw == ["ok"] then "ok" else "fail stream-panicked the code under test panicked while the harness evolved a state"
     | "conj" :: _ => "skip"
     | ["isstab", _] => "skip"
     | ["count", _] => "skip"
